@@ -247,11 +247,9 @@ func (n *SelectCaseNode) String() string {
 
 	buff.WriteString("case ")
 	buff.WriteString(n.Expression.String())
-	buff.WriteRune('\n')
-
 	for _, stmt := range n.Body {
-		indent.IndentString(&buff, stmt.String(), 1)
 		buff.WriteRune('\n')
+		indent.IndentString(&buff, stmt.String(), 1)
 	}
 
 	return buff.String()
